@@ -264,6 +264,11 @@ func handle(c *router.Context, hid int) {
 		return
 	}
 	h := strconv.Itoa(hid)
+	if len(st.Log) > 4000 {
+		// a chain that re-enters its handlers without end would overflow the Go stack (fatal, not
+		// recoverable): stop it here — the repeated enters are in the trace, the panic is observed
+		panic("verif: runaway handler chain")
+	}
 	st.Log = append(st.Log, "e"+h)
 	normal := false
 	defer func() {
